@@ -12,13 +12,13 @@ PROPS = {
                 assumptions=["memory accesses are observed through guard pages and debug assertions, not proved: a stray access that stays inside mapped memory and changes no result is invisible",
                              "NEON loads are checked on the generated model only (no aarch64 here)"]),
     "C02": dict(runs=runs([("split", D), ("core", D)], [("split", D), ("core", D), ("block", D)])),
-    "C03": dict(runs=runs([("core", D), ("block", D), ("chunk", D)])),
+    "C03": dict(runs=runs([("core", D), ("block", D), ("chunk", D), ("place", D)])),
     "C04": dict(runs=runs([("core", D), ("block", D), ("entries", D)]),
                 assumptions=["the static half (lifetimes; no safe program can keep a field past its buffer) is decided by rustc's borrow checker and is not claimed as proved"]),
-    "C05": dict(runs=runs([("core", D), ("block", D), ("utf8", D)])),
-    "C06": dict(runs=runs([("core", D), ("utf8", D)]), determining=True),
-    "C07": dict(runs=runs([("core", D)]), determining=True),
-    "C08": dict(runs=runs([("core", D), ("block", D)]), determining=True),
+    "C05": dict(runs=runs([("core", D), ("block", D), ("utf8", D), ("place", D)])),
+    "C06": dict(runs=runs([("core", D), ("utf8", D), ("place", D)]), determining=True),
+    "C07": dict(runs=runs([("core", D), ("place", D)]), determining=True),
+    "C08": dict(runs=runs([("core", D), ("block", D), ("place", D)]), determining=True),
     "C09": dict(runs=runs([("chunk", D), ("chunk", R)]), determining=True),
     "C10": dict(runs=runs([("core", D), ("block", D)]), determining=True),
     "C11": dict(runs=runs([], [])),   # two-pass witness pipeline, see special_c11
@@ -28,10 +28,10 @@ PROPS = {
     "C13": dict(runs=runs([("place", D), ("place", R), ("scan", D), ("scan", R), ("chunk", D), ("chunk", R), ("core", D), ("core", R)]),
                 assumptions=["weak-memory behaviour of the relaxed atomic cache is modelled as atomic steps on one location",
                              "'every switch combination compiles' is observed by building, not proved"]),
-    "C14": dict(runs=runs([("block", D), ("core", D)]), determining=True),
+    "C14": dict(runs=runs([("block", D), ("core", D), ("place", D)]), determining=True),
     "C15": dict(runs=runs([("cfgpair", D)])),
     "C16": dict(runs=runs([("entries", D), ("hrel", D)])),
-    "C17": dict(runs=runs([("core", D), ("entries", D)])),
+    "C17": dict(runs=runs([("core", D), ("entries", D), ("caps", D)])),
     "C18": dict(runs=runs([("hist", D)])),
     "C20": dict(runs=runs([("core", D), ("block", D), ("chunk", D)]),
                 assumptions=["wall-clock time is not modelled; the claim is about counted cursor travel and block loads"]),
@@ -117,8 +117,8 @@ def special_c20(tier, seed, th, chk):
         if binp is None:
             out.append({"family": "cost", "variant": variant, "build_failed": True, "log": err, "fails": [], "stats": {}, "samples": {}, "n": 0, "wall": 0})
             continue
-        def measure(reps):
-            o = subprocess.run([binp, "cost", str(small), str(factor), str(reps)], capture_output=True, text=True, env=chk.ENV, timeout=1800).stdout
+        def measure(reps, only=None):
+            o = subprocess.run([binp, "cost", str(small), str(factor), str(reps)] + ([only] if only else []), capture_output=True, text=True, env=chk.ENV, timeout=1800).stdout
             rows = {}
             for l in o.splitlines():
                 t = l.split()
@@ -146,7 +146,7 @@ def special_c20(tier, seed, th, chk):
                 if ratio > 3 * srat:
                     worst = ratio
                     for _ in range(3):
-                        rr = measure(15).get(fam, [])
+                        rr = measure(9, fam).get(fam, [])
                         if len(rr) == 2 and rr[0]["ns"] > 0:
                             worst = min(worst, rr[1]["ns"] / rr[0]["ns"])
                     if worst > 3 * srat:
